@@ -40,3 +40,20 @@ Theorem C05_lookup :
       packed_lookup (compress dense nterm nsyms (length dense)) s a = cellz dense s a.
 Proof. exact PipelineProofs.packed_lookup_correct. Qed.
 Print Assumptions C05_lookup.
+
+From YG Require Import LRBase Pipeline PipelineRun Drivers DriverSim.
+Close Scope Z_scope.
+Open Scope nat_scope.
+
+(* the packed lookups of the generated tables equal the dense cells whenever no dense cell is 0, column 0 is the error code and no goto column can land on a negative slot (three boolean conditions on the generated arrays) *)
+Theorem C05_packed_agrees :
+  forall (gi : ginfo) (t : tables),
+         generate_tables gi = inr t ->
+         0 < gi_nsyms gi ->
+         (forall s a : nat, s < length (t_aut t) -> a < gi_nsyms gi -> cellz (t_dense t) s a <> 0%Z) ->
+         (forall s : nat, s < length (t_aut t) -> cellz (t_dense t) s 0 = err_code (length (t_aut t))) ->
+         (forall s : nat,
+          s < length (t_aut t) -> (0 <= nth s (p_off (t_packed t)) 0 + Z.of_nat (S (gi_nterm gi)))%Z) ->
+         packed_agrees gi t.
+Proof. exact PipelineRun.packed_agrees_from_conditions. Qed.
+Print Assumptions C05_packed_agrees.
